@@ -10,6 +10,10 @@ tie      : correspondence — the model (one Gallina term, run on PrimFloat insi
            spectra as multisets; and the property predicates (||R R^T - A||, triangularity + orientation, ||Q^T Q - I||,
            Q diag(w) Q^T = A, U diag(S) V^T = A, S >= 0) are evaluated in Coq on the observed factors
 search   : the same predicates evaluated directly (plain torch, independent dense oracle opbuild.dense) on every case
+families : plain (one operator, one query, settings / cache grid) | hist (histories on SHARED objects: the query on
+           op.add_jitter(c), then on op / on a second composite of the same op) | mixed (batches mixing p.d. and exactly
+           singular members, also under settings.cholesky_jitter) | catrows (op.cat_rows(B, D) with a non-negligible
+           cross block, then the cached root / inverse root) — see harness/c06_grid.py
 """
 import itertools
 import json
@@ -498,6 +502,8 @@ def run(ctx):
             "pivoted_cholesky, torch.pinverse are replayed from the implementation's own calls (contracts assumed in the theorems, "
             "checked by the predicates on every case); dense Cholesky = C16 model (Cholesky-Banachiewicz kernel) vs LAPACK potrf",
             "member-wise view of batches (harness extracts each batch member of operator and outputs)",
+            "history / composite / cat_rows cases: c06_ops.run_case builds them through the public API (add_jitter, cat_rows); the "
+            "composite's model expression is read off the object the library built, its dense oracle is dense(op) + c I / the block matrix",
             "correspondence harness harness/c06*.py (recorder wrappers around torch.linalg.* in the harness process, comparators "
             "coq/C06/Check.v, tolerances %g entrywise / %g direct / %g Krylov)" % (TOL_VAL, TOL_DIRECT, TOL_KRYLOV),
             "IEEE rounding: theorems are exact-arithmetic (rcfType); floats only through tolerances"],
@@ -516,7 +522,8 @@ def run(ctx):
         "LAPACK eigh returns an orthonormal eigenbasis of the symmetric input (checked on every replayed call through the predicates)",
         "Lanczos-based roots are exact only up to the documented tridiagonal jitter and only when the rank bound reaches n and the "
         "eigenvalues are distinct (predicate tolerance %g there; otherwise only shape/model agreement)" % TOL_KRYLOV,
-        "float64 operators on CPU; default dtype float32 (library default) during the run"]
+        "float64 operators on CPU; default dtype float32 (library default) during the run",
+        "singular members of a mixed batch carry the documented psd_safe_cholesky jitter (C16): compared with the model only"]
 
 
 def run_shards_limited(ctx, shards, width=None):
